@@ -95,6 +95,75 @@ theorem tripleAdd_same_sign_ge (fb : Nat) (s : Bool) (sc1 sc2 : Int) (A B : Nat)
     rw [this]
     simp only [htop, Bool.false_eq_true, if_false]
 
+/-- `blocktriple::add` on two normalised significants of the SAME sign, left operand with the SMALLER scale:
+    the sum of the sticky-shifted left significant and the right one, no renormalisation, sign kept -/
+theorem tripleAdd_same_sign_lt (fb : Nat) (s : Bool) (sc1 sc2 : Int) (A B : Nat)
+    (hA1 : 2 ^ fb ≤ A) (hA2 : A < 2 ^ (fb + 1)) (hB1 : 2 ^ fb ≤ B) (hB2 : B < 2 ^ (fb + 1)) (hd : sc1 < sc2) :
+    tripleAdd fb { zero := false, sign := s, scale := sc1, sig := A <<< 3 } { zero := false, sign := s, scale := sc2, sig := B <<< 3 }
+      = { zero := false, sign := s, scale := sc2, sig := stickyShr (A * 8) (sc2 - sc1).toNat + B * 8 } ∧
+    2 ^ (fb + 3) ≤ stickyShr (A * 8) (sc2 - sc1).toNat + B * 8 ∧
+    stickyShr (A * 8) (sc2 - sc1).toNat + B * 8 < 2 ^ (fb + 5) := by
+  have hF := two_pow_pos fb
+  have e3 : ∀ x : Nat, x <<< 3 = x * 8 := by intro x; rw [Nat.shiftLeft_eq]
+  have p3 : 2 ^ (fb + 3) = 2 ^ fb * 8 := by rw [Nat.pow_add]
+  have p4 : 2 ^ (fb + 4) = 2 ^ fb * 16 := by rw [Nat.pow_add]
+  have p5 : 2 ^ (fb + 5) = 2 ^ fb * 32 := by rw [Nat.pow_add]
+  have p6 : 2 ^ (fb + 6) = 2 ^ fb * 64 := by rw [Nat.pow_add]
+  have p1 : 2 ^ (fb + 1) = 2 ^ fb * 2 := by rw [Nat.pow_add]
+  set d := (sc2 - sc1).toNat with hdd
+  have hrs_lt : stickyShr (A * 8) d < 2 ^ (fb + 4) := by
+    have he : 2 ^ (fb + 4) % 2 = 0 := by rw [p4]; omega
+    rw [(sticky_side (A * 8) d (2 ^ (fb + 4)) he).1]
+    have : 2 ^ (fb + 4) * 1 ≤ 2 ^ (fb + 4) * 2 ^ d := Nat.mul_le_mul_left _ (two_pow_pos d)
+    omega
+  have hrs_pos : 0 < stickyShr (A * 8) d := stickyShr_pos _ _ (by omega)
+  generalize hrs : stickyShr (A * 8) d = rs at *
+  have lo : 2 ^ (fb + 3) ≤ rs + B * 8 := by omega
+  have hi : rs + B * 8 < 2 ^ (fb + 5) := by omega
+  refine ⟨?_, lo, hi⟩
+  unfold tripleAdd Op.bfbits
+  simp only [e3]
+  have hdn : sc1 - sc2 < 0 := by omega
+  have hdneg : (-(sc1 - sc2)).toNat = d := by rw [hdd]; congr 1; omega
+  simp only [hdn, if_true, hdneg, hrs]
+  have hw : rs + B * 8 < 2 ^ (fb + 6) := by omega
+  have hmax : max sc1 sc2 = sc2 := max_eq_right (le_of_lt hd)
+  have w1 : fb + 6 - 1 = fb + 5 := by omega
+  have w2 : fb + 6 - 2 = fb + 4 := by omega
+  have w3 : fb + 6 - 3 = fb + 3 := by omega
+  have htop := top_two_bits (rs + B * 8) (fb + 3) lo (by rw [show fb + 3 + 2 = fb + 5 by omega]; exact hi)
+  rw [show fb + 3 + 1 = fb + 4 by omega] at htop
+  cases s
+  · -- both positive
+    simp only [Bool.false_eq_true, if_false]
+    rw [Nat.mod_eq_of_lt hw]
+    have hne : rs + B * 8 ≠ 0 := by omega
+    simp only [hne, if_false, w1, w2, w3, hmax]
+    have hneg : (rs + B * 8).testBit (fb + 5) = false := Nat.testBit_lt_two_pow hi
+    simp only [hneg, Bool.false_eq_true, if_false, htop]
+  · -- both negative
+    simp only [if_true]
+    have hB8 : B * 8 < 2 ^ (fb + 6) := by omega
+    rw [twosComp_of_lt _ _ hrs_pos (by omega), twosComp_of_lt _ _ (by omega) hB8]
+    have hsum : (2 ^ (fb + 6) - rs + (2 ^ (fb + 6) - B * 8)) % 2 ^ (fb + 6) = 2 ^ (fb + 6) - (rs + B * 8) := by
+      have : 2 ^ (fb + 6) - rs + (2 ^ (fb + 6) - B * 8) = (2 ^ (fb + 6) - (rs + B * 8)) + 2 ^ (fb + 6) := by omega
+      rw [this, Nat.add_mod_right, Nat.mod_eq_of_lt (by omega)]
+    rw [hsum]
+    have hne : 2 ^ (fb + 6) - (rs + B * 8) ≠ 0 := by omega
+    simp only [hne, if_false, w1, w2, w3, hmax]
+    have hneg : (2 ^ (fb + 6) - (rs + B * 8)).testBit (fb + 5) = true := by
+      rw [Nat.testBit_eq_decide_div_mod_eq]
+      have h1 : 2 ^ (fb + 5) ≤ 2 ^ (fb + 6) - (rs + B * 8) := by omega
+      have h2 : 2 ^ (fb + 6) - (rs + B * 8) < 2 * 2 ^ (fb + 5) := by omega
+      have : (2 ^ (fb + 6) - (rs + B * 8)) / 2 ^ (fb + 5) = 1 := by
+        apply Nat.div_eq_of_lt_le <;> omega
+      simp [this]
+    simp only [hneg, if_true]
+    rw [twosComp_of_lt _ _ (by omega) (by omega)]
+    have : 2 ^ (fb + 6) - (2 ^ (fb + 6) - (rs + B * 8)) = rs + B * 8 := by omega
+    rw [this]
+    simp only [htop, Bool.false_eq_true, if_false]
+
 end UVerif.Cfloat
 
 namespace UVerif.Cfloat
@@ -147,6 +216,119 @@ theorem convertFinite_eq_assemble (c : Cfg) (hv : c.valid = true) (o : Op) (sign
   unfold convertFinite
   simp only [hss, e1, e2, e3, e4, and_false, if_false, hnarrow, if_true, Nat.add_zero]
 
+/-- core of same-sign addition: the sum significant S = A·8 + sticky(B·8 >> (eA − eB)) of two normalised operands
+    (A = 2^fb + fA at exponent field eA ≥ eB, B = 2^fb + fB), converted with scale eA − bias, is the IEEE rounding of
+    the exact sum of the two magnitudes -/
+theorem same_sign_sum_round (c : Cfg) (hv : c.valid = true) (s : Bool) (eA fA eB fB : Nat)
+    (hnarrow : c.fbits + 6 < 65)
+    (hfa : fA < 2 ^ c.fbits) (hfb : fB < 2 ^ c.fbits) (hge : eB ≤ eA)
+    (lo : 2 ^ (c.fbits + 3) ≤ (2 ^ c.fbits + fA) * 8 + stickyShr ((2 ^ c.fbits + fB) * 8) (eA - eB))
+    (hi : (2 ^ c.fbits + fA) * 8 + stickyShr ((2 ^ c.fbits + fB) * 8) (eA - eB) < 2 ^ (c.fbits + 5))
+    (hlo : c.minExpNormal ≤ ((eA : Int) - c.bias) + sigScale (c.fbits + 3)
+        ((2 ^ c.fbits + fA) * 8 + stickyShr ((2 ^ c.fbits + fB) * 8) (eA - eB)))
+    (hhi : ((eA : Int) - c.bias) + sigScale (c.fbits + 3)
+        ((2 ^ c.fbits + fA) * 8 + stickyShr ((2 ^ c.fbits + fB) * 8) (eA - eB)) + c.bias + 1 < c.emax) :
+    convertFinite c .add s ((eA : Int) - c.bias) ((2 ^ c.fbits + fA) * 8 + stickyShr ((2 ^ c.fbits + fB) * 8) (eA - eB)) < 2 ^ c.nbits ∧
+    nearestNZ c ((if s then -1 else 1) *
+        ((1 + (fA : ℚ) / ((2 ^ c.fbits : Nat) : ℚ)) * pow2 ((eA : Int) - c.bias)
+          + (1 + (fB : ℚ) / ((2 ^ c.fbits : Nat) : ℚ)) * pow2 ((eB : Int) - c.bias)))
+      (convertFinite c .add s ((eA : Int) - c.bias) ((2 ^ c.fbits + fA) * 8 + stickyShr ((2 ^ c.fbits + fB) * 8) (eA - eB))) = true := by
+  obtain ⟨_, hfb1, _, _⟩ := valid_facts c hv
+  have hF := two_pow_pos c.fbits
+  have hb0 := bias_nonneg c
+  have p1 : 2 ^ (c.fbits + 1) = 2 ^ c.fbits * 2 := by rw [Nat.pow_add]
+  set A := 2 ^ c.fbits + fA with hA
+  set B := 2 ^ c.fbits + fB with hB
+  set d := eA - eB with hd
+  set S := A * 8 + stickyShr (B * 8) d with hS
+  have hrdx : Op.radix .add c.fbits = c.fbits + 3 := rfl
+  have hbf : Op.bfbits .add c.fbits = c.fbits + 6 := rfl
+  rw [convertFinite_eq_assemble c hv .add _ _ S (by rw [hbf]; exact hnarrow) (by rw [hrdx]; exact hlo) (by rw [hrdx]; exact hhi)]
+  rw [hrdx]
+  obtain ⟨m1, m2⟩ := sigScale_spec (c.fbits + 3) S lo
+  generalize hss : sigScale (c.fbits + 3) S = ss at *
+  have hss1 : ss ≤ 1 := by
+    by_contra hc
+    have : 2 ^ (c.fbits + 5) ≤ 2 ^ (ss + (c.fbits + 3)) := Nat.pow_le_pow_right (by omega) (by omega)
+    omega
+  set t := ss + (c.fbits + 3) - c.fbits with ht
+  have ht3 : t = ss + 3 := by omega
+  obtain ⟨r1, r2⟩ := shifted_range c.fbits (c.fbits + 3) S ss (by omega) m1 m2
+  set biased := ((eA : Int) - c.bias + (ss : Int) + c.bias).toNat with hbiased
+  have hbi : (biased : Int) - c.bias = (eA : Int) - c.bias + (ss : Int) := by
+    have hmn : c.minExpNormal = 1 - c.bias := rfl
+    omega
+  have hb1 : 1 ≤ biased := by
+    have hmn : c.minExpNormal = 1 - c.bias := rfl
+    omega
+  have hb2 : biased + 1 < c.emax := by omega
+  -- the exact sum
+  set N := A * 8 * 2 ^ d + B * 8 with hN
+  have hSN : S = stickyShr N d := by
+    rw [hS, hN, stickyShr_add_mul _ _ _ (by omega)]
+  have hD : (0 : ℚ) < ((2 ^ d : Nat) : ℚ) := by exact_mod_cast two_pow_pos d
+  set X : ℚ := (N : ℚ) / ((2 ^ d : Nat) : ℚ) * pow2 ((eA : Int) - c.bias - ((c.fbits + 3 : Nat) : Int)) with hX
+  have hpr := pow2_pos ((eA : Int) - c.bias - ((c.fbits + 3 : Nat) : Int))
+  -- binade of X
+  have he1 : 2 ^ (ss + (c.fbits + 3)) % 2 = 0 := by
+    rw [show ss + (c.fbits + 3) = (ss + c.fbits + 2) + 1 by omega, Nat.pow_succ]; omega
+  have he2 : 2 ^ (ss + (c.fbits + 3) + 1) % 2 = 0 := by rw [Nat.pow_succ]; omega
+  have hNlo : 2 ^ (ss + (c.fbits + 3)) * 2 ^ d ≤ N := by
+    by_contra hc
+    have := (sticky_side N d _ he1).1.mpr (by omega)
+    rw [← hSN] at this; omega
+  have hNhi : N < 2 ^ (ss + (c.fbits + 3) + 1) * 2 ^ d := by
+    have := (sticky_side N d _ he2).1.mp (by rw [← hSN]; exact m2)
+    exact this
+  have hXlo : pow2 ((biased : Int) - c.bias) ≤ X := by
+    rw [hbi]
+    have : pow2 ((eA : Int) - c.bias + (ss : Int)) =
+        ((2 ^ (ss + (c.fbits + 3)) : Nat) : ℚ) * pow2 ((eA : Int) - c.bias - ((c.fbits + 3 : Nat) : Int)) := by
+      rw [← pow2_natCast, ← pow2_add]; congr 1; push_cast; omega
+    rw [this, hX]
+    apply mul_le_mul_of_nonneg_right _ (le_of_lt hpr)
+    rw [le_div_iff₀ hD]; exact_mod_cast hNlo
+  have hXhi : X < pow2 ((biased : Int) - c.bias + 1) := by
+    rw [hbi]
+    have : pow2 ((eA : Int) - c.bias + (ss : Int) + 1) =
+        ((2 ^ (ss + (c.fbits + 3) + 1) : Nat) : ℚ) * pow2 ((eA : Int) - c.bias - ((c.fbits + 3 : Nat) : Int)) := by
+      rw [← pow2_natCast, ← pow2_add]; congr 1; push_cast; omega
+    rw [this, hX]
+    apply mul_lt_mul_of_pos_right _ hpr
+    rw [div_lt_iff₀ hD]; exact_mod_cast hNhi
+  -- nearest-even transfers from the sticky sum to the exact sum
+  have hRge : 1 ≤ rneShr S t := by
+    have hle := (rneShr_le S t).1
+    exact le_trans (le_trans hF r1) hle
+  have hk0 := rneShr_nearest S t
+  simp only [] at hk0
+  rw [hSN] at hk0
+  have hk1 := sticky_nearest_transfer N d t (rneShr (stickyShr N d) t) (by omega) (by rw [← hSN]; exact hRge) hk0
+  rw [← hSN] at hk1
+  have hquot : X / pow2 ((biased : Int) - c.bias - (c.fbits : Int)) = (N : ℚ) / ((2 ^ d : Nat) : ℚ) / ((2 ^ t : Nat) : ℚ) := by
+    have h1 : pow2 ((eA : Int) - c.bias - ((c.fbits + 3 : Nat) : Int))
+        = pow2 ((biased : Int) - c.bias - (c.fbits : Int)) / ((2 ^ t : Nat) : ℚ) := by
+      rw [← pow2_natCast, ← pow2_sub]; congr 1; rw [hbi]; push_cast; omega
+    have hu := pow2_pos ((biased : Int) - c.bias - (c.fbits : Int))
+    have ht2 : (0 : ℚ) < ((2 ^ t : Nat) : ℚ) := by exact_mod_cast two_pow_pos t
+    rw [hX, h1]; field_simp
+  rw [← hquot] at hk1
+  obtain ⟨hr1, hr2⟩ := assemble_round_core c hv (s) biased S t r1 r2 hb1 hb2 X hXlo hXhi hk1
+  have hFq : (0 : ℚ) < ((2 ^ c.fbits : Nat) : ℚ) := by exact_mod_cast hF
+  have hXval : X = (1 + (fA : ℚ) / ((2 ^ c.fbits : Nat) : ℚ)) * pow2 ((eA : Int) - c.bias)
+      + (1 + (fB : ℚ) / ((2 ^ c.fbits : Nat) : ℚ)) * pow2 ((eB : Int) - c.bias) := by
+    have hpb : pow2 ((eB : Int) - c.bias) = pow2 ((eA : Int) - c.bias) / ((2 ^ d : Nat) : ℚ) := by
+      rw [← pow2_natCast, ← pow2_sub]; congr 1; omega
+    have hpr3 : pow2 ((eA : Int) - c.bias - ((c.fbits + 3 : Nat) : Int))
+        = pow2 ((eA : Int) - c.bias) / (((2 ^ c.fbits : Nat) : ℚ) * 8) := by
+      rw [pow2_sub, pow2_natCast]; push_cast; rw [pow_add]; norm_num
+    have hpa := pow2_pos ((eA : Int) - c.bias)
+    rw [hX, hN, hpb, hpr3, hA, hB]
+    push_cast
+    field_simp
+  rw [← hXval]
+  exact ⟨hr1, hr2⟩
+
 /-- **addition of two finite operands of the same sign** (non-zero exponent fields, left operand with the larger or
     equal exponent), result in the normal range below the top binades, ≤ 64-bit path: the model's sum is the IEEE
     rounding of the exact sum. The alignment shift may discard any number of bits: the sticky bit makes the aligned
@@ -162,127 +344,92 @@ theorem add_same_sign_ge (c : Cfg) (hv : c.valid = true) (a b : Nat)
     satisfies c (expectOp "add" (cfVal c a) (cfVal c b)) (add c a b) = true := by
   obtain ⟨na, ia, za, ea, va⟩ := normalOperand_facts c hv a hna
   obtain ⟨nb, ib, zb, eb, vb⟩ := normalOperand_facts c hv b hnb
-  obtain ⟨_, hfb1, _, _⟩ := valid_facts c hv
   have hF := two_pow_pos c.fbits
-  have hb0 := bias_nonneg c
   have hfa := fracOf_lt c a
   have hfb := fracOf_lt c b
   have p1 : 2 ^ (c.fbits + 1) = 2 ^ c.fbits * 2 := by rw [Nat.pow_add]
-  set A := 2 ^ c.fbits + c.fracOf a with hA
-  set B := 2 ^ c.fbits + c.fracOf b with hB
-  set d := c.expOf a - c.expOf b with hd
-  have hdI : ((c.expOf a : Int) - c.bias - ((c.expOf b : Int) - c.bias)).toNat = d := by omega
-  obtain ⟨ta, lo, hi⟩ := tripleAdd_same_sign_ge c.fbits (c.signOf a) ((c.expOf a : Int) - c.bias) ((c.expOf b : Int) - c.bias) A B
-    (by omega) (by omega) (by omega) (by omega) (by omega)
+  have hdI : ((c.expOf a : Int) - c.bias - ((c.expOf b : Int) - c.bias)).toNat = c.expOf a - c.expOf b := by omega
+  obtain ⟨ta, lo, hi⟩ := tripleAdd_same_sign_ge c.fbits (c.signOf a) ((c.expOf a : Int) - c.bias) ((c.expOf b : Int) - c.bias)
+    (2 ^ c.fbits + c.fracOf a) (2 ^ c.fbits + c.fracOf b) (by omega) (by omega) (by omega) (by omega) (by omega)
   rw [hdI] at ta lo hi
-  set S := A * 8 + stickyShr (B * 8) d with hS
-  -- the model path
-  have hadd : add c a b = convertFinite c .add (c.signOf a) ((c.expOf a : Int) - c.bias) S := by
+  have hadd : add c a b = convertFinite c .add (c.signOf a) ((c.expOf a : Int) - c.bias)
+      ((2 ^ c.fbits + c.fracOf a) * 8 + stickyShr ((2 ^ c.fbits + c.fracOf b) * 8) (c.expOf a - c.expOf b)) := by
     unfold add
     rw [prologue_skip c a b _ na nb]
     simp only [ia, ib, za, zb, Bool.false_eq_true, if_false]
     rw [normalizeOp_add_normal c a ea, normalizeOp_add_normal c b eb, ← hsign, ta]
     unfold convertTriple
     simp
-  have hrdx : Op.radix .add c.fbits = c.fbits + 3 := rfl
-  have hbf : Op.bfbits .add c.fbits = c.fbits + 6 := rfl
-  rw [hadd, convertFinite_eq_assemble c hv .add _ _ S (by rw [hbf]; exact hnarrow) (by rw [hrdx]; exact hlo) (by rw [hrdx]; exact hhi)]
-  rw [hrdx]
-  obtain ⟨m1, m2⟩ := sigScale_spec (c.fbits + 3) S lo
-  generalize hss : sigScale (c.fbits + 3) S = ss at *
-  have hss1 : ss ≤ 1 := by
-    by_contra hc
-    have : 2 ^ (c.fbits + 5) ≤ 2 ^ (ss + (c.fbits + 3)) := Nat.pow_le_pow_right (by omega) (by omega)
-    omega
-  set t := ss + (c.fbits + 3) - c.fbits with ht
-  have ht3 : t = ss + 3 := by omega
-  obtain ⟨r1, r2⟩ := shifted_range c.fbits (c.fbits + 3) S ss (by omega) m1 m2
-  set biased := ((c.expOf a : Int) - c.bias + (ss : Int) + c.bias).toNat with hbiased
-  have hbi : (biased : Int) - c.bias = (c.expOf a : Int) - c.bias + (ss : Int) := by
-    have hmn : c.minExpNormal = 1 - c.bias := rfl
-    omega
-  have hb1 : 1 ≤ biased := by
-    have hmn : c.minExpNormal = 1 - c.bias := rfl
-    omega
-  have hb2 : biased + 1 < c.emax := by omega
-  -- the exact sum
-  set N := A * 8 * 2 ^ d + B * 8 with hN
-  have hSN : S = stickyShr N d := by
-    rw [hS, hN, stickyShr_add_mul _ _ _ (by omega)]
-  have hD : (0 : ℚ) < ((2 ^ d : Nat) : ℚ) := by exact_mod_cast two_pow_pos d
-  set X : ℚ := (N : ℚ) / ((2 ^ d : Nat) : ℚ) * pow2 ((c.expOf a : Int) - c.bias - ((c.fbits + 3 : Nat) : Int)) with hX
-  have hpr := pow2_pos ((c.expOf a : Int) - c.bias - ((c.fbits + 3 : Nat) : Int))
-  -- binade of X
-  have he1 : 2 ^ (ss + (c.fbits + 3)) % 2 = 0 := by
-    rw [show ss + (c.fbits + 3) = (ss + c.fbits + 2) + 1 by omega, Nat.pow_succ]; omega
-  have he2 : 2 ^ (ss + (c.fbits + 3) + 1) % 2 = 0 := by rw [Nat.pow_succ]; omega
-  have hNlo : 2 ^ (ss + (c.fbits + 3)) * 2 ^ d ≤ N := by
-    by_contra hc
-    have := (sticky_side N d _ he1).1.mpr (by omega)
-    rw [← hSN] at this; omega
-  have hNhi : N < 2 ^ (ss + (c.fbits + 3) + 1) * 2 ^ d := by
-    have := (sticky_side N d _ he2).1.mp (by rw [← hSN]; exact m2)
-    exact this
-  have hXlo : pow2 ((biased : Int) - c.bias) ≤ X := by
-    rw [hbi]
-    have : pow2 ((c.expOf a : Int) - c.bias + (ss : Int)) =
-        ((2 ^ (ss + (c.fbits + 3)) : Nat) : ℚ) * pow2 ((c.expOf a : Int) - c.bias - ((c.fbits + 3 : Nat) : Int)) := by
-      rw [← pow2_natCast, ← pow2_add]; congr 1; push_cast; omega
-    rw [this, hX]
-    apply mul_le_mul_of_nonneg_right _ (le_of_lt hpr)
-    rw [le_div_iff₀ hD]; exact_mod_cast hNlo
-  have hXhi : X < pow2 ((biased : Int) - c.bias + 1) := by
-    rw [hbi]
-    have : pow2 ((c.expOf a : Int) - c.bias + (ss : Int) + 1) =
-        ((2 ^ (ss + (c.fbits + 3) + 1) : Nat) : ℚ) * pow2 ((c.expOf a : Int) - c.bias - ((c.fbits + 3 : Nat) : Int)) := by
-      rw [← pow2_natCast, ← pow2_add]; congr 1; push_cast; omega
-    rw [this, hX]
-    apply mul_lt_mul_of_pos_right _ hpr
-    rw [div_lt_iff₀ hD]; exact_mod_cast hNhi
-  -- nearest-even transfers from the sticky sum to the exact sum
-  have hRge : 1 ≤ rneShr S t := by
-    have hle := (rneShr_le S t).1
-    exact le_trans (le_trans hF r1) hle
-  have hk0 := rneShr_nearest S t
-  simp only [] at hk0
-  rw [hSN] at hk0
-  have hk1 := sticky_nearest_transfer N d t (rneShr (stickyShr N d) t) (by omega) (by rw [← hSN]; exact hRge) hk0
-  rw [← hSN] at hk1
-  have hquot : X / pow2 ((biased : Int) - c.bias - (c.fbits : Int)) = (N : ℚ) / ((2 ^ d : Nat) : ℚ) / ((2 ^ t : Nat) : ℚ) := by
-    have h1 : pow2 ((c.expOf a : Int) - c.bias - ((c.fbits + 3 : Nat) : Int))
-        = pow2 ((biased : Int) - c.bias - (c.fbits : Int)) / ((2 ^ t : Nat) : ℚ) := by
-      rw [← pow2_natCast, ← pow2_sub]; congr 1; rw [hbi]; push_cast; omega
-    have hu := pow2_pos ((biased : Int) - c.bias - (c.fbits : Int))
-    have ht2 : (0 : ℚ) < ((2 ^ t : Nat) : ℚ) := by exact_mod_cast two_pow_pos t
-    rw [hX, h1]; field_simp
-  rw [← hquot] at hk1
-  obtain ⟨hr1, hr2⟩ := assemble_round_core c hv (c.signOf a) biased S t r1 r2 hb1 hb2 X hXlo hXhi hk1
-  -- the spec side
+  obtain ⟨hr1, hr2⟩ := same_sign_sum_round c hv (c.signOf a) (c.expOf a) (c.fracOf a) (c.expOf b) (c.fracOf b)
+    hnarrow hfa hfb hge lo hi hlo hhi
   have hxa := normal_mag_pos (c.fracOf a) (2 ^ c.fbits) hF ((c.expOf a : Int) - c.bias)
   have hxb := normal_mag_pos (c.fracOf b) (2 ^ c.fbits) hF ((c.expOf b : Int) - c.bias)
-  rw [va, vb, ← hsign]
-  have hFq : (0 : ℚ) < ((2 ^ c.fbits : Nat) : ℚ) := by exact_mod_cast hF
-  have hXval : X = (1 + (c.fracOf a : ℚ) / ((2 ^ c.fbits : Nat) : ℚ)) * pow2 ((c.expOf a : Int) - c.bias)
-      + (1 + (c.fracOf b : ℚ) / ((2 ^ c.fbits : Nat) : ℚ)) * pow2 ((c.expOf b : Int) - c.bias) := by
-    have hpb : pow2 ((c.expOf b : Int) - c.bias) = pow2 ((c.expOf a : Int) - c.bias) / ((2 ^ d : Nat) : ℚ) := by
-      rw [← pow2_natCast, ← pow2_sub]; congr 1; omega
-    have hpr3 : pow2 ((c.expOf a : Int) - c.bias - ((c.fbits + 3 : Nat) : Int))
-        = pow2 ((c.expOf a : Int) - c.bias) / (((2 ^ c.fbits : Nat) : ℚ) * 8) := by
-      rw [pow2_sub, pow2_natCast]; push_cast; rw [pow_add]; norm_num
-    have hpa := pow2_pos ((c.expOf a : Int) - c.bias)
-    rw [hX, hN, hpb, hpr3, hA, hB]
-    push_cast
-    field_simp
+  rw [va, vb, ← hsign, hadd]
   have hexp : expectOp "add"
       (Val.fin (c.signOf a) ((1 + (c.fracOf a : ℚ) / ((2 ^ c.fbits : Nat) : ℚ)) * pow2 ((c.expOf a : Int) - c.bias)))
       (Val.fin (c.signOf a) ((1 + (c.fracOf b : ℚ) / ((2 ^ c.fbits : Nat) : ℚ)) * pow2 ((c.expOf b : Int) - c.bias)))
-      = .real ((if c.signOf a = true then -1 else 1) * X) := by
+      = .real ((if c.signOf a = true then -1 else 1) *
+          ((1 + (c.fracOf a : ℚ) / ((2 ^ c.fbits : Nat) : ℚ)) * pow2 ((c.expOf a : Int) - c.bias)
+            + (1 + (c.fracOf b : ℚ) / ((2 ^ c.fbits : Nat) : ℚ)) * pow2 ((c.expOf b : Int) - c.bias))) := by
     simp only [expectOp]
     cases hsa : c.signOf a
     · simp only [Bool.false_eq_true, if_false]
-      rw [if_neg (by linarith), hXval]; simp
+      rw [if_neg (by linarith)]; simp
     · simp only [if_true]
-      rw [if_neg (by linarith), hXval]; congr 1; ring
+      rw [if_neg (by linarith)]; congr 1; ring
+  rw [hexp]
+  unfold satisfies
+  simp only [Bool.and_eq_true, decide_eq_true_eq]
+  exact ⟨hr1, hr2⟩
+
+/-- the mirrored case: the RIGHT operand has the larger exponent (the left one is aligned and receives the sticky bit) -/
+theorem add_same_sign_lt (c : Cfg) (hv : c.valid = true) (a b : Nat)
+    (hnarrow : c.fbits + 6 < 65)
+    (hna : normalOperand c a = true) (hnb : normalOperand c b = true)
+    (hsign : c.signOf a = c.signOf b) (hlt : c.expOf a < c.expOf b)
+    (hlo : c.minExpNormal ≤ ((c.expOf b : Int) - c.bias) + sigScale (c.fbits + 3)
+        ((2 ^ c.fbits + c.fracOf b) * 8 + stickyShr ((2 ^ c.fbits + c.fracOf a) * 8) (c.expOf b - c.expOf a)))
+    (hhi : ((c.expOf b : Int) - c.bias) + sigScale (c.fbits + 3)
+        ((2 ^ c.fbits + c.fracOf b) * 8 + stickyShr ((2 ^ c.fbits + c.fracOf a) * 8) (c.expOf b - c.expOf a)) + c.bias + 1 < c.emax) :
+    satisfies c (expectOp "add" (cfVal c a) (cfVal c b)) (add c a b) = true := by
+  obtain ⟨na, ia, za, ea, va⟩ := normalOperand_facts c hv a hna
+  obtain ⟨nb, ib, zb, eb, vb⟩ := normalOperand_facts c hv b hnb
+  have hF := two_pow_pos c.fbits
+  have hfa := fracOf_lt c a
+  have hfb := fracOf_lt c b
+  have p1 : 2 ^ (c.fbits + 1) = 2 ^ c.fbits * 2 := by rw [Nat.pow_add]
+  have hdI : ((c.expOf b : Int) - c.bias - ((c.expOf a : Int) - c.bias)).toNat = c.expOf b - c.expOf a := by omega
+  obtain ⟨ta, lo, hi⟩ := tripleAdd_same_sign_lt c.fbits (c.signOf a) ((c.expOf a : Int) - c.bias) ((c.expOf b : Int) - c.bias)
+    (2 ^ c.fbits + c.fracOf a) (2 ^ c.fbits + c.fracOf b) (by omega) (by omega) (by omega) (by omega) (by omega)
+  rw [hdI] at ta lo hi
+  have hcomm : stickyShr ((2 ^ c.fbits + c.fracOf a) * 8) (c.expOf b - c.expOf a) + (2 ^ c.fbits + c.fracOf b) * 8
+      = (2 ^ c.fbits + c.fracOf b) * 8 + stickyShr ((2 ^ c.fbits + c.fracOf a) * 8) (c.expOf b - c.expOf a) := Nat.add_comm _ _
+  rw [hcomm] at ta lo hi
+  have hadd : add c a b = convertFinite c .add (c.signOf a) ((c.expOf b : Int) - c.bias)
+      ((2 ^ c.fbits + c.fracOf b) * 8 + stickyShr ((2 ^ c.fbits + c.fracOf a) * 8) (c.expOf b - c.expOf a)) := by
+    unfold add
+    rw [prologue_skip c a b _ na nb]
+    simp only [ia, ib, za, zb, Bool.false_eq_true, if_false]
+    rw [normalizeOp_add_normal c a ea, normalizeOp_add_normal c b eb, ← hsign, ta]
+    unfold convertTriple
+    simp
+  obtain ⟨hr1, hr2⟩ := same_sign_sum_round c hv (c.signOf a) (c.expOf b) (c.fracOf b) (c.expOf a) (c.fracOf a)
+    hnarrow hfb hfa (le_of_lt hlt) lo hi hlo hhi
+  have hxa := normal_mag_pos (c.fracOf a) (2 ^ c.fbits) hF ((c.expOf a : Int) - c.bias)
+  have hxb := normal_mag_pos (c.fracOf b) (2 ^ c.fbits) hF ((c.expOf b : Int) - c.bias)
+  rw [va, vb, ← hsign, hadd]
+  have hexp : expectOp "add"
+      (Val.fin (c.signOf a) ((1 + (c.fracOf a : ℚ) / ((2 ^ c.fbits : Nat) : ℚ)) * pow2 ((c.expOf a : Int) - c.bias)))
+      (Val.fin (c.signOf a) ((1 + (c.fracOf b : ℚ) / ((2 ^ c.fbits : Nat) : ℚ)) * pow2 ((c.expOf b : Int) - c.bias)))
+      = .real ((if c.signOf a = true then -1 else 1) *
+          ((1 + (c.fracOf b : ℚ) / ((2 ^ c.fbits : Nat) : ℚ)) * pow2 ((c.expOf b : Int) - c.bias)
+            + (1 + (c.fracOf a : ℚ) / ((2 ^ c.fbits : Nat) : ℚ)) * pow2 ((c.expOf a : Int) - c.bias))) := by
+    simp only [expectOp]
+    cases hsa : c.signOf a
+    · simp only [Bool.false_eq_true, if_false]
+      rw [if_neg (by linarith)]; congr 1; ring
+    · simp only [if_true]
+      rw [if_neg (by linarith)]; congr 1; ring
   rw [hexp]
   unfold satisfies
   simp only [Bool.and_eq_true, decide_eq_true_eq]
